@@ -12,6 +12,8 @@ package c09
 import (
 	"encoding/hex"
 	"fmt"
+	"runtime"
+	"runtime/debug"
 	"testing"
 
 	"pgregory.net/rapid"
@@ -158,6 +160,10 @@ func checkBigCut(ctx *pbt.Ctx, c BigCut) error {
 	if !okEntry || (c.Side != "in" && c.Side != "out" && c.Side != "tx") || c.N < 0 || c.N > 70000 || c.Cut < -1 || c.Flip < -1 {
 		ctx.Discard("invalid case")
 		return nil
+	}
+	if c.N > 10000 {
+		old := debug.SetGCPercent(100) // see reuse_test.go
+		defer func() { debug.SetGCPercent(old); runtime.GC() }()
 	}
 	data := c.input()
 	ctx.Key([]byte(c.Entry), data)
